@@ -392,11 +392,6 @@ theorem normExit_renderExit (e : ExitD) (hv : validExit e = true) : normExit (re
 
 /-! ### nodes -/
 
-def nodeCasesC (nc : NodeC) : List CaseD :=
-  match nc.router with
-  | none => []
-  | some r => routerCases r
-
 def nodeCasesD (n : NodeD) : List CaseD :=
   match n.router with
   | none => []
@@ -796,5 +791,166 @@ theorem normFlow_renderFlow (f : FlowD) (hn : ∀ n ∈ f.nodes, NodeOk n) :
     intro n h
     simp only [Function.comp, hruuid n h, hlook n h, U]
   simp [this, flowImg]
+
+/-! ### assigning uuids from the dictionary changes nothing when every reference resolves to itself -/
+
+theorem assignGroup_id (gd : UDict) (g : GroupD) (h : dget g.name gd = some g.uuid) : assignGroup gd g = g := by
+  cases g; simp_all [assignGroup]
+
+theorem assignFlowRef_id (fd : UDict) (f : FlowRefD) (h : dget f.name fd = some f.uuid) : assignFlowRef fd f = f := by
+  cases f; simp_all [assignFlowRef]
+
+theorem map_id_of_forall {α : Type} {f : α → α} (l : List α) (h : ∀ a ∈ l, f a = a) : l.map f = l := by
+  calc l.map f = l.map id := List.map_congr_left h
+    _ = l := by simp
+
+theorem assignAction_id (gd fd : UDict) (a : ActionD)
+    (hg : ∀ r ∈ actionGroupRefs a, dget r.1 gd = some r.2) (hf : ∀ r ∈ actionFlowRefs a, dget r.1 fd = some r.2) :
+    assignAction gd fd a = a := by
+  cases a with
+  | addGroups u gs =>
+    simp only [assignAction]
+    rw [map_id_of_forall gs (fun g hg' => assignGroup_id gd g (hg (gref g) (List.mem_map_of_mem hg')))]
+  | removeGroups u gs ag =>
+    simp only [assignAction]
+    rw [map_id_of_forall gs (fun g hg' => assignGroup_id gd g (hg (gref g) (List.mem_map_of_mem hg')))]
+  | enterFlow u f =>
+    simp only [assignAction]
+    rw [assignFlowRef_id fd f (hf (fref f) (by simp [actionFlowRefs]))]
+  | _ => rfl
+
+theorem assignCase_id (gd : UDict) (c : CaseD) (h : ∀ r ∈ caseRefsD c, dget r.1 gd = some r.2) :
+    assignCase gd c = c := by
+  unfold assignCase
+  by_cases ht : c.type = strHasGroup
+  · simp only [ht, if_true]
+    cases c with
+    | mk uuid type arguments cu =>
+      match arguments, h with
+      | [], _ => rfl
+      | [_], _ => rfl
+      | u :: n :: rest, h =>
+        simp only at ht
+        have := h (n, u) (by simp [caseRefsD, ht])
+        simp only at this
+        simp [this, ht]
+  · simp [ht]
+
+theorem assignRouter_id (gd : UDict) (rc : RouterC) (h : ∀ c ∈ routerCases rc, assignCase gd c = c) :
+    assignRouter gd rc = rc := by
+  cases rc with
+  | switch op rn wt ks os d nr =>
+    simp only [assignRouter]
+    rw [map_id_of_forall ks h]
+  | random rn cs => rfl
+
+theorem nodeRefsD_eq (n : NodeD) :
+    nodeRefsD n = (n.actions.map actionGroupRefs).flatten ++ ((nodeCasesD n).map caseRefsD).flatten := by
+  cases n with
+  | mk u a r e =>
+    cases r with
+    | none => simp [nodeRefsD, nodeCasesD, actionRefsD]
+    | some r => cases r <;> simp [nodeRefsD, nodeCasesD, routerCasesD, actionRefsD]
+
+theorem assignNode_id (gd fd : UDict) (U : List (Str × Blob × Blob)) (n : NodeD) (hok : NodeOk n)
+    (hg : ∀ r ∈ nodeRefsD n, dget r.1 gd = some r.2) (hf : ∀ r ∈ nodeFlowRefsD n, dget r.1 fd = some r.2) :
+    assignNode gd fd (setPos U (nodeImg n)) = setPos U (nodeImg n) := by
+  obtain ⟨_, _, hacts, _, hcases, _⟩ := nodeImg_spec n hok
+  rw [nodeRefsD_eq] at hg
+  have h1 : (nodeImg n).actions.map (assignAction gd fd) = (nodeImg n).actions := by
+    rw [hacts]
+    apply map_id_of_forall
+    intro a ha
+    apply assignAction_id
+    · intro r hr
+      exact hg r (List.mem_append_left _ (List.mem_flatten.mpr ⟨_, List.mem_map_of_mem ha, hr⟩))
+    · intro r hr
+      exact hf r (List.mem_flatten.mpr ⟨_, List.mem_map_of_mem ha, hr⟩)
+  have h2 : (nodeImg n).router.map (assignRouter gd) = (nodeImg n).router := by
+    cases hr : (nodeImg n).router with
+    | none => rfl
+    | some rc =>
+      simp only [Option.map_some]
+      rw [assignRouter_id gd rc]
+      intro c hc
+      apply assignCase_id
+      intro r hr'
+      have hc' : c ∈ nodeCasesD n := by rw [← hcases]; simp [nodeCasesC, hr, hc]
+      exact hg r (List.mem_append_right _ (List.mem_flatten.mpr ⟨_, List.mem_map_of_mem hc', hr'⟩))
+  simp only [assignNode, setPos, h1, h2]
+
+/-! ### the group references of a loaded node are those of the node -/
+
+theorem caseGroupRefs_ok (c : CaseD) (h : validCase c = true) : caseGroupRefs c = .ok (caseRefsD c) := by
+  simp only [validCase, Bool.and_eq_true, Bool.or_eq_true, bne_iff_ne, ne_eq, Bool.not_eq_true',
+    decide_eq_true_eq] at h
+  obtain ⟨_, h4⟩ := h
+  unfold caseGroupRefs caseRefsD
+  by_cases ht : c.type = strHasGroup
+  · simp only [ht, if_true]
+    rcases h4 with h4 | h4
+    · simp [ht] at h4
+    · match hargs : c.arguments with
+      | [] => simp [hargs] at h4
+      | [_] => simp [hargs] at h4
+      | u :: n :: rest => rfl
+  · simp [ht]
+
+theorem validNode_cases (n : NodeD) (h : validNode n = true) : ∀ c ∈ nodeCasesD n, validCase c = true := by
+  cases n with
+  | mk u a r e =>
+    simp only [validNode, Bool.and_eq_true] at h
+    obtain ⟨_, hr⟩ := h
+    cases r with
+    | none => simp [nodeCasesD]
+    | some r =>
+      cases r with
+      | random cats rn => simp [nodeCasesD, routerCasesD]
+      | switch op cases cats dflt wait rn =>
+        simp only [validRouter, Bool.and_eq_true] at hr
+        intro c hc
+        simp only [nodeCasesD, routerCasesD] at hc
+        exact (List.all_eq_true.mp hr.1.1.2) c hc
+
+theorem nodeGroupRefs_ok (U : List (Str × Blob × Blob)) (n : NodeD) (hok : NodeOk n) :
+    nodeGroupRefs (setPos U (nodeImg n)) = .ok (nodeRefsD n) := by
+  obtain ⟨_, _, hacts, _, hcases, _⟩ := nodeImg_spec n hok
+  have hc : mapE caseGroupRefs (nodeCasesD n) = .ok ((nodeCasesD n).map caseRefsD) :=
+    mapE_ok_of_forall _ (fun c hc => caseGroupRefs_ok c (validNode_cases n hok.1 c hc))
+  have : nodeCasesC (setPos U (nodeImg n)) = nodeCasesD n := by
+    rw [← hcases]; rfl
+  unfold nodeGroupRefs
+  rw [this, hc, nodeRefsD_eq]
+  simp [setPos, hacts]
+
+theorem nodeFlowRefs_ok (U : List (Str × Blob × Blob)) (n : NodeD) (hok : NodeOk n) :
+    nodeFlowRefs (setPos U (nodeImg n)) = nodeFlowRefsD n := by
+  obtain ⟨_, _, hacts, _, _, _⟩ := nodeImg_spec n hok
+  simp [nodeFlowRefs, nodeFlowRefsD, setPos, hacts]
+
+/-- transport of a per-node function from the loaded flows to the document's nodes -/
+theorem loadedNodes_map {β : Type} (flows : List FlowD) (φ : NodeC → β) (ψ : NodeD → β)
+    (h : ∀ f ∈ flows, ∀ n ∈ f.nodes, φ (setPos (f.ui.getD []) (nodeImg n)) = ψ n) :
+    (((flows.map flowImg).map (·.nodes)).flatten).map φ = ((flows.map (·.nodes)).flatten).map ψ := by
+  induction flows with
+  | nil => rfl
+  | cons f fs ih =>
+    simp only [List.map_cons, List.flatten_cons, List.map_append]
+    rw [ih (fun f' hf' => h f' (by simp [hf']))]
+    congr 1
+    simp only [flowImg, List.map_map]
+    apply List.map_congr_left
+    intro n hn
+    exact h f (by simp) n hn
+
+theorem loadedNodes_mem (flows : List FlowD) (nc : NodeC)
+    (h : nc ∈ ((flows.map flowImg).map (·.nodes)).flatten) :
+    ∃ f ∈ flows, ∃ n ∈ f.nodes, nc = setPos (f.ui.getD []) (nodeImg n) := by
+  obtain ⟨l, hl, hnc⟩ := List.mem_flatten.mp h
+  simp only [List.map_map, List.mem_map, Function.comp] at hl
+  obtain ⟨f, hf, rfl⟩ := hl
+  simp only [flowImg, List.map_map, List.mem_map, Function.comp] at hnc
+  obtain ⟨n, hn, rfl⟩ := hnc
+  exact ⟨f, hf, n, hn, rfl⟩
 
 end Rpft.Document
